@@ -207,43 +207,45 @@ def feed (b : Buf) (bytes : Bytes) (n : Int) : Buf × Slot := ((b.write bytes).c
 
 def step (s : St) : Op → St × Obs
   | .park seq bytes n =>
-      let (b, slot) := feed s.buf bytes n
-      let (sq, ok, err) := s.sq.push seq slot
-      if ok = true then
-        ({ s with buf := b, sq := sq }, .park slot.Index slot.Length ok err sq.bytes sq.size b.saved)
-      else match b.discard slot with
+      let f := feed s.buf bytes n                 -- (buffer, slot returned by Save)
+      let p := s.sq.push seq f.2                  -- (sequencer, ok, err)
+      if p.2.1 = true then
+        ({ s with buf := f.1, sq := p.1 }, .park f.2.Index f.2.Length p.2.1 p.2.2 p.1.bytes p.1.size f.1.saved)
+      else match f.1.discard f.2 with
         | none => (s, .panic)
-        | some (b, _) => ({ s with buf := b, sq := sq }, .park slot.Index slot.Length ok err sq.bytes sq.size b.saved)
+        | some d => ({ s with buf := d.1, sq := p.1 }, .park f.2.Index f.2.Length p.2.1 p.2.2 p.1.bytes p.1.size d.1.saved)
   | .take seq =>
       match s.sq.pop seq with
       | none => (s, .panic)
-      | some (sq, slot, false) => ({ s with sq := sq }, .take false slot.Index slot.Length none sq.bytes sq.size s.buf.saved)
-      | some (sq, slot, true) =>
-        match s.buf.discard slot with
-        | none => (s, .panic)
-        | some (b, _) =>
-          ({ s with buf := b, sq := sq }, .take true slot.Index slot.Length (s.buf.savedSlot slot) sq.bytes sq.size b.saved)
+      | some p =>                                 -- (sequencer, slot, ok)
+        if p.2.2 = true then
+          match s.buf.discard p.2.1 with
+          | none => (s, .panic)
+          | some d =>
+            ({ s with buf := d.1, sq := p.1 },
+              .take true p.2.1.Index p.2.1.Length (s.buf.savedSlot p.2.1) p.1.bytes p.1.size d.1.saved)
+        else ({ s with sq := p.1 }, .take false p.2.1.Index p.2.1.Length none p.1.bytes p.1.size s.buf.saved)
   | .add bytes n =>
-      let (b, slot) := feed s.buf bytes n
-      match offsetterAdd s.tree slot with
+      let f := feed s.buf bytes n
+      match offsetterAdd s.tree f.2 with
       | some slot' =>
-        ({ s with buf := b, live := s.live ++ [(s.next, slot')], next := s.next + 1 },
-          .add slot.Index slot.Length false slot'.Index slot'.Length b.saved)
-      | none => match b.discard slot with
+        ({ s with buf := f.1, live := s.live ++ [(s.next, slot')], next := s.next + 1 },
+          .add f.2.Index f.2.Length false slot'.Index slot'.Length f.1.saved)
+      | none => match f.1.discard f.2 with
         | none => (s, .panic)
-        | some (b, _) => ({ s with buf := b }, .add slot.Index slot.Length true 0 0 b.saved)
+        | some d => ({ s with buf := d.1 }, .add f.2.Index f.2.Length true 0 0 d.1.saved)
   | .off h =>
       match s.live.lookup h with
       | none => (s, .skip)
       | some slot =>
         match offsetterOffset s.tree slot with
         | none => (s, .panic)
-        | some (t, slot) =>
-          match s.buf.discard slot with
+        | some o =>                               -- (tree, offset slot)
+          match s.buf.discard o.2 with
           | none => (s, .panic)
-          | some (b, _) =>
-            ({ s with buf := b, tree := t, live := s.live.filter (fun p => p.1 != h) },
-              .off slot.Index slot.Length (s.buf.savedSlot slot) b.saved)
+          | some d =>
+            ({ s with buf := d.1, tree := o.1, live := s.live.filter (fun p => p.1 != h) },
+              .off o.2.Index o.2.Length (s.buf.savedSlot o.2) d.1.saved)
   | .reset =>
       if s.live = [] then ({ s with tree := s.tree.reset }, .unit) else (s, .skip)
 
